@@ -37,7 +37,7 @@ ENTRIES = ["sfile_fn", "sfile_obj", "recfile_obj", "recfile_obj_nrows", "recfile
 
 @st.composite
 def cases(draw):
-    t = draw(T.tables(kind="text", max_fields=6, max_rows=40, big_rows=200, allow_mixed_order=True))
+    t = draw(T.tables(kind="text", max_fields=6, max_rows=40, big_rows=200, allow_mixed_order=True, sizes=True))
     return {"table": t, "delim": draw(st.sampled_from(T.TEXT_DELIMS)), "entry": draw(st.sampled_from(ENTRIES)),
             "layout": draw(st.sampled_from(["contig", "contig", "contig", "strided"]))}
 
